@@ -2,6 +2,7 @@ package main
 
 import (
 	"fmt"
+	"hash/fnv"
 	"strings"
 
 	"verifharness/elkrun"
@@ -377,7 +378,11 @@ func runElkBatch(r *engine.R, f *flavour, ops []eop, items []elkItem, base int) 
 		if h, ok := helpers[text]; ok {
 			return h + "()"
 		}
-		name := fmt.Sprintf("lit_%s_%d", f.id, len(helpers))
+		// the name is a function of the literal text: method definitions leak into the process-global runtime, so a
+		// name must mean the same body in every program this worker process compiles
+		hsh := fnv.New64a()
+		hsh.Write([]byte(text))
+		name := fmt.Sprintf("lit_%s_%x", f.id, hsh.Sum64())
 		helpers[text] = name
 		fmt.Fprintf(&helperDefs, "def %s: ::Std::HashRecord[%s, %s] then %s\n", name, f.kt, f.vt, text)
 		return name + "()"
